@@ -48,7 +48,14 @@ def magicSymbols (f : Flags) : List Char :=
 def isMagic (f : Flags) (name : List Char) : Bool :=
   (magicSymbols f).any (fun c => name.contains c)
 
-/-- `_sequence` (202-220) after its first `next(i)`: `none` = `StopIteration` -/
+/-- `i.match(_wcparse.RE_POSIX)`: the iterator moves over `:name:]` if that is what comes next,
+    and stays where it is otherwise.  The test is the parser's own `matchPosix` (fix: D34) -/
+def skipPosix (it : It) : It :=
+  match matchPosix it.rest with
+  | some (_, len, rest') => ⟨it.idx + len, rest'⟩
+  | none => it
+
+/-- `_sequence` (202-226) after its first members: `none` = `StopIteration` -/
 def seqLoop : Nat → Char → It → Option It
   | 0, _, _ => none
   | fuel+1, c, it =>
@@ -63,14 +70,19 @@ def seqLoop : Nat → Char → It → Option It
           | none => none
           | some (c', it3) => seqLoop fuel c' it3
     else if c = '/' then none
-    else match it.next with
+    else
+      -- a POSIX class is ONE member: its `]` does not end the sequence (fix: D34)
+      match (if c = '[' then skipPosix it else it).next with
       | none => none
       | some (c', it') => seqLoop fuel c' it'
 
+/-- `_sequence` (202-226).  The bracket is read the way the parser `WcParse._sequence` reads it
+    (fix: D34): negation is `!` or `^`; a first member `[` (a POSIX class if `:name:]` follows),
+    `-` or `]` is a literal member -/
 def sequence (it : It) : Option It := do
   let (c, it) ← it.next
-  let (c, it) ← if c = '!' then it.next else some (c, it)
-  let (c, it) ← if c = '^' ∨ c = '-' ∨ c = '[' then it.next else some (c, it)
+  let (c, it) ← if c = '!' ∨ c = '^' then it.next else some (c, it)
+  let (c, it) ← if c = '[' then (skipPosix it).next else if c = '-' ∨ c = ']' then it.next else some (c, it)
   seqLoop (it.rest.length + 2) c it
 
 mutual
